@@ -13,7 +13,11 @@ pub trait Prop: Sync {
 }
 
 pub mod c09;
+pub mod c01;
+pub mod c02;
+pub mod c03;
 pub mod c0405;
+pub mod msg;
 pub mod c19;
 pub mod rlnsub;
 pub mod c20;
@@ -23,6 +27,9 @@ pub fn lookup(id: &str) -> Option<Box<dyn Prop>> {
     match id {
         "C09" => Some(Box::new(c09::C09)),
         "C19" => Some(Box::new(c19::C19)),
+        "C01" => Some(Box::new(c01::C01)),
+        "C02" => Some(Box::new(c02::C02)),
+        "C03" => Some(Box::new(c03::C03)),
         "C04" => Some(Box::new(c0405::C04)),
         "C05" => Some(Box::new(c0405::C05)),
         "C20" => Some(Box::new(c20::C20)),
